@@ -51,7 +51,7 @@ func cmdRun(args []string) {
 	workers := fs.Int("j", 16, "workers")
 	permute := fs.Bool("permute-maps", false, "explore all map iteration orders")
 	logDir := fs.String("logdir", "", "dump solver transcripts")
-	solver := fs.String("solver", "z3", "solver")
+	solver := fs.String("solver", defaultSolver(), "solver")
 	timeout := fs.Int("timeout", 60000, "per-query timeout ms")
 	jsonOut := fs.String("json", "", "write result JSON")
 	fs.Parse(args)
